@@ -258,14 +258,14 @@ def run_both(stream, cases, harness_exe, tag, shards=None, timeout=900, extra_en
             except subprocess.TimeoutExpired:
                 p.kill(); p.wait()
         for fh in (ho, he, mo, me): fh.close()
-        io, stray = parse_obs(open(os.path.join(tmpd, 'impl%d.out' % i)).read())
-        mo_, stray2 = parse_obs(open(os.path.join(tmpd, 'model%d.out' % i)).read())
+        io, stray = parse_obs(open(os.path.join(tmpd, 'impl%d.out' % i), errors='replace').read())
+        mo_, stray2 = parse_obs(open(os.path.join(tmpd, 'model%d.out' % i), errors='replace').read())
         impl.update(io); model.update(mo_); stray_all += stray + stray2
         if ph.returncode != 0:
             # the harness died: the first case without output is the culprit; re-run the rest one by one
             done = set(io.keys())
             rest = [c for c in part if c[0] not in done]
-            err = open(os.path.join(tmpd, 'impl%d.err' % i)).read()[-2000:]
+            err = open(os.path.join(tmpd, 'impl%d.err' % i), errors='replace').read()[-2000:]
             if rest:
                 crashes.append((rest[0][0], ph.returncode, err))
                 for c in rest[1:]:
